@@ -646,6 +646,15 @@ def call_builtin(self, name, pos, kw, node, fr):
     self.emit('call', node, fr, name=name, resolved=None, args=pos, kwargs=kw, external=True, builtin=True)
     if name == 'isinstance' and len(pos) == 2:
         ta = pos[1].single_atom()
+        x0 = pos[0].single_atom()
+        if x0 is not None and x0.kind == 'ite':
+            # isinstance(a if c else b, T) == isinstance(a, T) if c else isinstance(b, T)
+            rec, self.record = self.record, False
+            try:
+                return T.mk_ite(x0.args[0], call_builtin(self, name, [x0.args[1], pos[1]], kw, node, fr),
+                                call_builtin(self, name, [x0.args[2], pos[1]], kw, node, fr))
+            finally:
+                self.record = rec
         if self.quantity_plain and ta is not None and ta.kind == 'ext' and ta.args[0].endswith('Quantity'):
             return FALSE
         xa = pos[0].single_atom()
@@ -675,6 +684,16 @@ def call_builtin(self, name, pos, kw, node, fr):
         CONTAINERS = {'list', 'tuple', 'ndarray', 'dict', 'set', 'str', 'bytes', 'Quantity', 'PurePath', 'Path'}
         if tnames and tnames <= CONTAINERS - {'str'} and (pos[0].const() is not None or (xa is not None and xa.kind == 'str')):
             return FALSE          # a literal number / string is none of the container types
+        HEAD_TYPE = {'list': 'list', 'sorted': 'list', 'tuple': 'tuple', 'dict': 'dict', 'str': 'str', 'fstr': 'str',
+                     'array': 'ndarray', 'zeros': 'ndarray', 'ones': 'ndarray', 'full': 'ndarray', 'empty': 'ndarray',
+                     'linspace': 'ndarray', 'arange': 'ndarray', 'concatenate': 'ndarray'}
+        vt = None
+        if xa is not None and xa.kind == 'call' and not str(xa.args[0]).startswith('.'):
+            vt = HEAD_TYPE.get(str(xa.args[0]))
+        elif xa is not None and xa.kind in ('list', 'tuple', 'dict', 'str'):
+            vt = xa.kind
+        if vt is not None and tnames and tnames <= CONTAINERS | {'slice', 'int', 'float', 'Frame', 'Waterfall'}:
+            return TRUE if vt in tnames else FALSE         # the value was built by a constructor of a known type
         if xa is not None and xa.kind == 'new':
             ci = self.prog.classes.get(xa.args[0])
             if ta is not None and ta.kind == 'class':
